@@ -2,6 +2,7 @@ package wr
 
 import (
 	"os"
+	"strings"
 	"testing"
 
 	"verif/engine/qx"
@@ -13,5 +14,16 @@ func TestCheck(t *testing.T) {
 		prop = "C01"
 	}
 	tier := os.Getenv("VERIF_TIER")
-	qx.RunSuite(t, Suite(prop, tier))
+	items := Suite(prop, tier)
+	if f := os.Getenv("VERIF_FILTER"); f != "" {
+		// development aid: only the scenarios whose name contains f
+		var keep []qx.SuiteItem
+		for _, it := range items {
+			if strings.Contains(it.Scn.Name, f) {
+				keep = append(keep, it)
+			}
+		}
+		items = keep
+	}
+	qx.RunSuite(t, items)
 }
